@@ -1020,6 +1020,12 @@ def _decorate_with_invariants(func: CallableT, is_init: bool) -> CallableT:
             in_progress = _IN_PROGRESS.get()
 
             id_instance = id(instance)
+            if id_instance in in_progress:
+                # The instance is still under construction: we were called from the constructor of a sub-class,
+                # e.g., as ``super().__init__()``. The invariants can not be expected to hold on a half-built
+                # instance; the outermost constructor checks them once the instance has been completely built.
+                return func(*args, **kwargs)
+
             _IN_PROGRESS.set(in_progress | {id_instance})
 
             # ExitStack is not used here due to performance.
